@@ -77,6 +77,12 @@ def main(tier, rep):
         for cfgp, steps in L.gen_fault_programs(["pooled", "hashpooled"], L.ALL_OPS, tier, seed=common.seed() + (mp or 0),
                                                 cfg_extra={"max_pool": mp, "idle": IDLE}, quick_stride=3):
             traces.append(L.run_program(cfgp, steps))
+    # the same with the connection options that add steps to connecting and closing (TLS wrapper, TCP_NODELAY, keepalive)
+    for extra in ({"tls": True}, {"nodelay": True, "keepalive": True}):
+        few = [("set", (False,)), ("get", (None,)), ("incr", (False,)), ("delete_many", (False,))]
+        for cfgp, steps in L.gen_fault_programs(["pooled"], few if tier == "quick" else L.ALL_OPS, tier, seed=common.seed() + 17,
+                                                cfg_extra=dict(extra, max_pool=1), quick_stride=3, warm_modes=(True,)):
+            traces.append(L.run_program(cfgp, steps))
     # calls that fail without any connection fault (a rejected key, a dict-style read of an absent key): the healthy
     # connection is kept, and still nothing stays checked out
     for kind in ("pooled", "hashpooled"):
